@@ -358,39 +358,41 @@ func backSlice(v ssa.Value, depth int) []ssa.Value {
 			}
 		}
 		if a, ok := v.(*ssa.Alloc); ok && a.Referrers() != nil {
-			for _, sv := range storesTo(a) {
-				walk(sv, d-1)
-			}
-			// copy(a[:], src) fills the cell
-			for _, r := range *a.Referrers() {
-				sl, ok := r.(*ssa.Slice)
-				if !ok || sl.Referrers() == nil {
-					continue
+			// everything written into the cell, its fields/elements (two levels), by Store
+			// or by copy(cell[:], src)
+			var scan func(addr ssa.Value, lvl int)
+			scan = func(addr ssa.Value, lvl int) {
+				refs := addr.Referrers()
+				if refs == nil {
+					return
 				}
-				for _, rr := range *sl.Referrers() {
-					if cl, ok := rr.(*ssa.Call); ok && calleeName(&cl.Call) == "builtin:copy" && cl.Call.Args[0] == ssa.Value(sl) {
-						walk(cl.Call.Args[1], d-1)
+				for _, r := range *refs {
+					switch x := r.(type) {
+					case *ssa.Store:
+						if x.Addr == addr {
+							walk(x.Val, d-1)
+						}
+					case *ssa.Slice:
+						if x.X != addr || x.Referrers() == nil {
+							continue
+						}
+						for _, rr := range *x.Referrers() {
+							if cl, ok := rr.(*ssa.Call); ok && calleeName(&cl.Call) == "builtin:copy" && cl.Call.Args[0] == ssa.Value(x) {
+								walk(cl.Call.Args[1], d-1)
+							}
+						}
+					case *ssa.IndexAddr:
+						if x.X == addr && lvl < 2 {
+							scan(x, lvl+1)
+						}
+					case *ssa.FieldAddr:
+						if x.X == addr && lvl < 2 {
+							scan(x, lvl+1)
+						}
 					}
 				}
 			}
-			// values stored into elements/fields of a local aggregate (varargs arrays, literals)
-			for _, r := range *a.Referrers() {
-				var addr ssa.Value
-				switch x := r.(type) {
-				case *ssa.IndexAddr:
-					addr = x
-				case *ssa.FieldAddr:
-					addr = x
-				}
-				if addr == nil || addr.Referrers() == nil {
-					continue
-				}
-				for _, rr := range *addr.Referrers() {
-					if st, ok := rr.(*ssa.Store); ok && st.Addr == addr {
-						walk(st.Val, d-1)
-					}
-				}
-			}
+			scan(a, 0)
 		}
 		if ins, ok := v.(ssa.Instruction); ok {
 			for _, op := range ins.Operands(nil) {
